@@ -147,7 +147,7 @@ def base_and_decl(t, inner):
             d = "(" + d + ")"
         return base_and_decl(sub, d)
     if k == "arr":
-        return base_and_decl(t[1], "%s[%s]" % (inner, "" if t[2] < 0 else t[2]))
+        return base_and_decl(t[1], "%s[%s]" % (inner, t[2] if isinstance(t[2], str) else "" if t[2] < 0 else t[2]))
     if k == "fnp":
         args = ", ".join(decl(a, "") for a in t[2])
         if t[3]:
